@@ -55,6 +55,8 @@ func pairSpace(tier, opt string) []pairLeg {
 	}
 	add("deep", Deep(thorough || o == "none" || o == "MERGE"))
 	add("mixed", Mixed())
+	add("numbers", NumDocs())
+	add("hostile", thin(HostileDocs(), 110))
 	switch {
 	case o == "none":
 		if thorough {
